@@ -5,6 +5,7 @@ package checks
 
 import (
 	"fmt"
+	"regexp"
 	"strconv"
 	"strings"
 
@@ -551,8 +552,15 @@ func ParseAsm(out interp.Value) []*AsmLine {
 var dataMnems = map[string]bool{"map_script": true, "map_script_2": true}
 
 func isDataLine(al *AsmLine) bool {
+	if al.Kind == "instr" {
+		if ps := interp.Parts(al.Raw); len(ps) > 0 && ps[0].Kind == interp.PLit && strings.HasPrefix(ps[0].Lit, "\t.") {
+			return true // an assembler directive (possibly with a symbolic name)
+		}
+	}
 	return al.Kind == "instr" && (strings.HasPrefix(al.Mnem, ".") || dataMnems[al.Mnem]) || al.Kind == "other"
 }
+
+var movementLabelRe = regexp.MustCompile(`_Movement_[0-9]+$`)
 
 var condOps = map[string]string{"goto_if_eq": "eq", "goto_if_ne": "ne", "goto_if_lt": "lt", "goto_if_le": "le", "goto_if_gt": "gt", "goto_if_ge": "ge"}
 
@@ -658,6 +666,20 @@ func BuildAsmGraph(c *interp.Ctx, out interp.Value, isEntry func(name interp.Val
 		}
 		return ag.nodeOf[d.Index]
 	}
+	// movement blocks are data that looks like commands: the lines after a
+	// hoisted movement label (…_Movement_<n>) up to the next label are data
+	inMovement := false
+	movementLine := map[int]bool{}
+	for _, al := range code {
+		if al.Kind == "label" {
+			ps := interp.Parts(al.Name)
+			inMovement = len(ps) > 0 && ps[len(ps)-1].Kind == interp.PLit && movementLabelRe.MatchString(ps[len(ps)-1].Lit)
+			continue
+		}
+		if inMovement {
+			movementLine[al.Index] = true
+		}
+	}
 	var cmpA, cmpB interp.Value
 	cmpStrict, haveCmp := false, false
 	var trainer interp.Value
@@ -676,7 +698,7 @@ func BuildAsmGraph(c *interp.Ctx, out interp.Value, isEntry func(name interp.Val
 		case al.Kind == "label":
 			n.Kind, n.Next = NSilent, nextOf(k)
 			reset()
-		case isDataLine(al):
+		case isDataLine(al) || movementLine[al.Index]:
 			n.Kind, n.Term = NTerm, "runoff"
 			n.Desc = "data " + n.Desc
 			reset()
